@@ -26,6 +26,8 @@ type CEnv struct {
 	frame *Frame // for debug-ref lookups of locals (loop invariants)
 	cur   *Heap  // overrides st.heap when set
 	freshAfter int // fresh(x): born(x) > freshAfter
+	depth int
+	inPattern bool
 }
 
 func (e *CEnv) world() *World {
@@ -144,7 +146,9 @@ func (e *CEnv) Eval(x CExpr) (CV, error) {
 		if len(n.Pats) > 0 {
 			var ps []string
 			for _, p := range n.Pats {
+				c.inPattern = true
 				pv, err := c.Eval(p)
+				c.inPattern = false
 				if err != nil {
 					return CV{}, err
 				}
@@ -172,6 +176,9 @@ func (e *CEnv) evalIdent(name string) (CV, error) {
 				return CV{T: t, GoT: ent.v.Type()}, nil
 			}
 		}
+	}
+	if name == "bempty" {
+		return CV{T: Term{"bempty", SBytes}}, nil
 	}
 	if s, ok := w.CS.Consts[name]; ok {
 		return CV{T: w.D.Const(name, s)}, nil
@@ -347,7 +354,7 @@ func (e *CEnv) selectField(v CV, field string) (CV, error) {
 		t = p.Elem()
 		isPtr = true
 	}
-	st, ok := t.Underlying().(*types.Struct)
+	st, ok := asStruct(t)
 	if !ok {
 		return CV{}, cerr("field %s of non-struct %s", field, v.GoT)
 	}
@@ -378,7 +385,7 @@ func (e *CEnv) selectField(v CV, field string) (CV, error) {
 	ft := st.Field(idx).Type()
 	if isPtr {
 		addr := e.ex.fieldAddr(v.T, t, idx)
-		if _, isStruct := ft.Underlying().(*types.Struct); isStruct {
+		if _, isStruct := asStruct(ft); isStruct {
 			// keep as pointer-like to allow further selection
 			return CV{T: addr, GoT: types.NewPointer(ft)}, nil
 		}
@@ -403,7 +410,7 @@ func (e *CEnv) index(v, i CV) (CV, error) {
 			return CV{T: BAt(Select(bm, SBase(v.T)), Add(SOff(v.T), i.T))}, nil
 		}
 		elem := v.GoT.Underlying().(*types.Slice).Elem()
-		if _, isStruct := elem.Underlying().(*types.Struct); isStruct {
+		if _, isStruct := asStruct(elem); isStruct {
 			addr := e.ex.elemAddr(SBase(v.T), Add(SOff(v.T), i.T), elem)
 			return CV{T: addr, GoT: types.NewPointer(elem)}, nil
 		}
@@ -559,6 +566,9 @@ func (e *CEnv) evalCall(n *CCall) (CV, error) {
 						key = b
 					}
 				}
+				if e.inPattern {
+					return CV{T: Select(Select(w.heapGet(e.heap(), pn, ps), m.T), key)}, nil
+				}
 				return CV{T: And(Not(Eq(m.T, TNil)), Select(Select(w.heapGet(e.heap(), pn, ps), m.T), key))}, nil
 			}
 		}
@@ -684,6 +694,18 @@ func (e *CEnv) evalCall(n *CCall) (CV, error) {
 		}
 		s := args[0].T
 		return CV{T: MkSlice(SBase(s), Add(SOff(s), args[1].T), Sub(args[2].T, args[1].T), Sub(SCap(s), args[1].T)), GoT: args[0].GoT}, nil
+	case "real":
+		args, err := evalArgs()
+		if err != nil {
+			return CV{}, err
+		}
+		return CV{T: App(SReal, "to_real", args[0].T)}, nil
+	case "rdiv":
+		args, err := evalArgs()
+		if err != nil {
+			return CV{}, err
+		}
+		return CV{T: App(SReal, "/", args[0].T, args[1].T)}, nil
 	case "mkslice":
 		args, err := evalArgs()
 		if err != nil {
@@ -728,6 +750,25 @@ func (e *CEnv) evalCall(n *CCall) (CV, error) {
 			return CV{T: Select(arr, e.coerceTo(args[0], g.Params[0]))}, nil
 		}
 		return CV{}, cerr("ghost %s: at most one parameter supported", n.Fn)
+	}
+	// predicate macro: expanded in the calling environment (may read the heap)
+	if pd, ok := w.CS.Preds[n.Fn]; ok {
+		args, err := evalArgs()
+		if err != nil {
+			return CV{}, err
+		}
+		if len(args) != len(pd.Params) {
+			return CV{}, cerr("pred %s: expected %d arguments", n.Fn, len(pd.Params))
+		}
+		c := e.child()
+		for i, p := range pd.Params {
+			c.vars[p] = args[i]
+		}
+		if e.depth > 20 {
+			return CV{}, cerr("pred %s: expansion too deep", n.Fn)
+		}
+		c.depth = e.depth + 1
+		return c.Eval(pd.Body)
 	}
 	// spec function
 	if sf, ok := w.CS.Specs[n.Fn]; ok {
@@ -780,7 +821,7 @@ func (e *CEnv) evalAddr(x CExpr) (CV, error) {
 	if !ok {
 		return CV{}, cerr("addr(): base is not a pointer")
 	}
-	st, ok := p.Elem().Underlying().(*types.Struct)
+	st, ok := asStruct(p.Elem())
 	if !ok {
 		return CV{}, cerr("addr(): base is not a struct pointer")
 	}
